@@ -24,8 +24,18 @@ EXTENDS Engine
 
 Ctx0(fault) == [cnt |-> 0, fault |-> fault, fired |-> FALSE, calls |-> <<>>, xfers |-> <<>>, swaps |-> <<>>]
 
-Call(ctx, to, from, op, ok, injected) ==
-  [ctx EXCEPT !.calls = Append(@, [n |-> ctx.cnt, to |-> to, from |-> from, msg |-> op, ok |-> ok, injected |-> injected])]
+CallArgs(m) == IF m.op = "swap_input" THEN [base_asset_limit |-> m.a.limit, quote_asset_limit |-> 0]
+               ELSE IF m.op = "swap_output" THEN [base_asset_limit |-> 0, quote_asset_limit |-> m.a.limit]
+               ELSE [base_asset_limit |-> 0, quote_asset_limit |-> 0]
+CallM(ctx, from, m, ok, injected) ==
+  [ctx EXCEPT !.calls = Append(@, [n |-> ctx.cnt, to |-> m.to, from |-> from, entry |-> "execute",
+                                   msg |-> IF m.to = "bank" THEN "bank_send" ELSE m.op,
+                                   args |-> CallArgs(m), ok |-> ok, injected |-> injected])]
+ReplyCall(ctx, contract, id, ok) ==
+  [ctx EXCEPT !.calls = Append(@, [n |-> ctx.cnt, to |-> contract, from |-> contract, entry |-> "reply",
+                                   msg |-> "reply_" \o ToString(id),
+                                   args |-> [base_asset_limit |-> 0, quote_asset_limit |-> 0],
+                                   ok |-> ok, injected |-> FALSE])]
 
 NoData == [input |-> 0, output |-> 0, vamm |-> "", frac |-> 0]
 
@@ -180,16 +190,16 @@ Exec(W, from, m, ctx0) ==
       n == ctx1.cnt
   IN IF ctx1.fault = n
      THEN [ok |-> FALSE, W |-> W, data |-> NoData, err |-> "injected",
-           ctx |-> LET c == Call([ctx1 EXCEPT !.fired = TRUE], m.to, from, m.op, FALSE, TRUE)
+           ctx |-> LET c == CallM([ctx1 EXCEPT !.fired = TRUE], from, m, FALSE, TRUE)
                    IN IF m.to \in {"bank", "token"}
                       THEN [c EXCEPT !.xfers = Append(@, XferOf(W, from, m, n, FALSE))] ELSE c]
      ELSE IF m.to \in {"bank", "token"}
      THEN LET r == LedgerExec(W, from, m)
           IN [ok |-> r.ok, W |-> r.W, data |-> NoData, err |-> IF r.ok THEN "" ELSE "ledger",
-              ctx |-> [Call(ctx1, m.to, from, m.op, r.ok, FALSE) EXCEPT !.xfers = Append(@, XferOf(W, from, m, n, r.ok))]]
+              ctx |-> [CallM(ctx1, from, m, r.ok, FALSE) EXCEPT !.xfers = Append(@, XferOf(W, from, m, n, r.ok))]]
      ELSE LET h == Handle(W, from, m)
-          IN IF ~h.ok THEN [ok |-> FALSE, W |-> W, data |-> NoData, err |-> h.err, ctx |-> Call(ctx1, m.to, from, m.op, FALSE, FALSE)]
-             ELSE LET c2 == Call(ctx1, m.to, from, m.op, TRUE, FALSE)
+          IN IF ~h.ok THEN [ok |-> FALSE, W |-> W, data |-> NoData, err |-> h.err, ctx |-> CallM(ctx1, from, m, FALSE, FALSE)]
+             ELSE LET c2 == CallM(ctx1, from, m, TRUE, FALSE)
                       c3 == IF m.op \in {"swap_input", "swap_output"}
                             THEN [c2 EXCEPT !.swaps = Append(@, [n |-> n, vamm |-> m.to,
                                        type |-> IF m.op = "swap_input" THEN "input" ELSE "output", dir |-> m.a.dir,
@@ -208,8 +218,7 @@ RunSubs(W, contract, msgs, ctx) ==
        IN IF r.ok
           THEN IF sm.on = "always"
                THEN LET rp == ReplyOf(r.W, contract, sm.id, TRUE, r.data)
-                        cr == [r.ctx EXCEPT !.calls = Append(@, [n |-> r.ctx.cnt, to |-> contract, from |-> contract,
-                                                                msg |-> "reply", ok |-> rp.ok, injected |-> FALSE])]
+                        cr == ReplyCall(r.ctx, contract, sm.id, rp.ok)
                     IN IF ~rp.ok THEN [ok |-> FALSE, W |-> W, ctx |-> cr, err |-> rp.err]
                        ELSE LET s == RunSubs(rp.W, contract, rp.msgs, cr)
                             IN IF ~s.ok THEN [ok |-> FALSE, W |-> W, ctx |-> s.ctx, err |-> s.err]
@@ -217,9 +226,9 @@ RunSubs(W, contract, msgs, ctx) ==
                ELSE RunSubs(r.W, contract, Tail(msgs), r.ctx)
           ELSE IF sm.on \in {"always", "error"}
                THEN LET rp == ReplyOf(W, contract, sm.id, FALSE, NoData)
-                        cr == [r.ctx EXCEPT !.calls = Append(@, [n |-> r.ctx.cnt, to |-> contract, from |-> contract,
-                                                                msg |-> "reply", ok |-> rp.ok, injected |-> FALSE])]
-                    IN IF ~rp.ok THEN [ok |-> FALSE, W |-> W, ctx |-> cr, err |-> IF r.err = "over" THEN "over" ELSE rp.err]
+                        cr == ReplyCall(r.ctx, contract, sm.id, rp.ok)
+                    IN IF ~rp.ok THEN [ok |-> FALSE, W |-> W, ctx |-> cr,
+                                       err |-> IF r.err = "over" THEN "over" ELSE IF sm.id = 9 THEN "transfer_failure" ELSE "other"]
                        ELSE LET s == RunSubs(rp.W, contract, rp.msgs, cr)       \* a swallowed error
                             IN IF ~s.ok THEN [ok |-> FALSE, W |-> W, ctx |-> s.ctx, err |-> s.err]
                                ELSE RunSubs(s.W, contract, Tail(msgs), s.ctx)
